@@ -365,6 +365,16 @@ def check(ctx):
 
             ctx.paths("R16-b", rx, [("calc", f"{v} = $E"), ("use", f"await self.receive_stream.receive({v})"), ("susp", "await self.receive_stream.receive()")],
                       step_m, "", None, instance="missing byte count is fresh when used", allow_no_exit=True)
+    # receive_exactly hands out the *head of the buffer* and nothing else: a chunk that has just arrived is appended first (returned
+    # directly it would overtake older bytes still in the buffer - a wrapped object stream ignores the size asked for)
+    from .common import origin_of
+    for r_ in [x for x in own_walk(rx.node) if isinstance(x, ast.Return)]:
+        v_ = unwrap_bytes(r_.value) if r_.value is not None else None
+        v_ = unwrap_bytes(origin_of(rx.node, v_)) if v_ is not None else None
+        okb = v_ is not None and buf_slice(v_) is not None
+        ctx.ob("R16-b", rx, "receive_exactly returns bytes taken from the head of the buffer", okb, node=r_,
+               detail="" if okb else f"`{norm(r_)}` does not return a slice of the buffer (bytes that bypass the buffer overtake the ones stored in it)",
+               by=("self._buffer[:nbytes]",))
     reads_x = [x for x in own_walk(rx.node) if isinstance(x, (ast.Assign, ast.AnnAssign)) and x.value is not None and buf_slice(x.value) is not None]
     # checked where the bytes are read out of the buffer (the removal that follows kills facts about the buffer before the return)
     for r in reads_x or [x for x in own_walk(rx.node) if isinstance(x, ast.Return)]:
